@@ -207,7 +207,7 @@ class Runner:
                   "pre": self.proj_trace(pid, tr) if tr is not None else T0, "post": T0, "w": 0,
                   "assess": {"status": "none", "score": 0, "ret": gb.NN}, "disc": [], "hasdisc": False,
                   "retdiff": [], "undo": {"status": "none", "post": T0, "w": 0},
-                  "alt": {"status": "none", "post": T0, "w": 0}, "alt2": {"status": "none", "post": T0, "w": 0}, "alt3": {"status": "none", "post": T0, "w": 0}, "altm": {"status": "none", "post": T0, "w": 0}, "flagmode": "none", "consform": 0, "argmode": "array",
+                  "alt": {"status": "none", "post": T0, "w": 0}, "alt2": {"status": "none", "post": T0, "w": 0}, "alt3": {"status": "none", "post": T0, "w": 0}, "altm": {"status": "none", "post": T0, "w": 0}, "flagmode": "none", "consform": 0, "argmode": "array", "tagvars": [],
                   "subt": {"choices": [], "score": 0}, "w2": 0, "haspre": tr is not None, "extra": []}
             try:
                 newtr = self.step(ev, rq, e, p, tr, cur_argsV, k1, k2, k3)
@@ -357,19 +357,27 @@ class Runner:
         if isinstance(bwd, Update):
             ev["disc"] = gb.proj_chm(bwd.constraint, e["addrs"])
             ev["hasdisc"] = True
-        # C08: the same edit with every (unchanged) argument tagged UnknownChange instead of NoChange, same key
+        # C08: the same edit under every other honest tagging of the unchanged arguments (NoChange -> UnknownChange
+        # on each non-empty subset of them), same key
         if "tagvar" in self.want and op in ("update", "regenerate") and "N" in tags:
-            tagsU = ["U"] * len(tags)
-            try:
-                def mk_editU():
-                    def f(k, t, v, fl, i, a):
-                        return self.make_request(rq, p, v, i, fl).edit(k, t, self.argdiffs(a, tagsU))
-                    return f
-                rkeyU = rkey[:-1] + [tagsU]
-                n4, w4, _, _ = self.fn(_skey(pid, "edit", rkeyU), mk_editU)(k1, tr, vals, flags, idx, new_args)
-                ev["alt3"] = {"status": "ok", "w": gb.fx(w4), "post": self.proj_trace(pid, n4)}
-            except Exception as ex:
-                ev["alt3"] = {"status": "raised:" + type(ex).__name__, "w": 0, "post": T0}
+            import itertools
+            free = [j for j, t in enumerate(tags) if t == "N"][:3]
+            variants = []
+            for r_ in range(1, len(free) + 1):
+                for sub in itertools.combinations(free, r_):
+                    tv = list(tags)
+                    for j in sub:
+                        tv[j] = "U"
+                    try:
+                        def mk_editV(tv=tv):
+                            def f(k, t, v, fl, i, a):
+                                return self.make_request(rq, p, v, i, fl).edit(k, t, self.argdiffs(a, tv))
+                            return f
+                        n4, w4, _, _ = self.fn(_skey(pid, "edit", rkey[:-1] + [tv]), mk_editV)(k1, tr, vals, flags, idx, new_args)
+                        variants.append({"tags": tv, "status": "ok", "w": gb.fx(w4), "post": self.proj_trace(pid, n4)})
+                    except Exception as ex:
+                        variants.append({"tags": tv, "status": "raised:" + type(ex).__name__, "w": 0, "post": T0})
+            ev["tagvars"] = variants
         # C38: the derived entry points with the same key
         if clo and "alt" in self.want and p["n"] != 0:
             pass      # partial_apply / keyword closures own a different trace type: validated against the spec only
